@@ -68,7 +68,14 @@ func CanonicalizeSource(source string) string {
 	if len(out) == 0 {
 		return ""
 	}
-	return strings.Join(out, "\n") + "\n"
+	result := strings.Join(out, "\n") + "\n"
+	// Removing leading blank lines can bring a BOM that followed them to the
+	// start of the file, where the next run would strip it: strip it now, so
+	// that formatting stays idempotent.
+	if strings.HasPrefix(result, "\ufeff") {
+		return CanonicalizeSource(result)
+	}
+	return result
 }
 
 // scanBrackets counts bracket opens and closes on a single line, ignoring
